@@ -107,12 +107,16 @@ Theorem include_cycle_rejected : forall jsc_len enum_len files banned s l x1 pat
 Proof. exact include_cycle_rejected_lemma. Qed.
 Print Assumptions include_cycle_rejected.
 
-(* a refused INCLUDE ends the scan with that diagnostic *)
-Theorem include_rejection_ends_scan : forall jsc_len enum_len files banned f s x1 l k,
+(* a refused INCLUDE ends the scan with that diagnostic -- once the directive read before it has
+   been placed (drainCurrentScanner calls processCurrentDirective before processInclude; s0 = the
+   state after that; a misplaced directive is diagnosed first and the INCLUDE is not looked at:
+   IncludeProofs.include_after_misplaced_directive) *)
+Theorem include_rejection_ends_scan : forall jsc_len enum_len files banned f s x1 l k s0,
   sc_next jsc_len enum_len (cs_sc s) = Ok (x1, Some l) ->
   lexkind_eqb (lk l) LKeyword = true ->
   value_of x1 l = COk (kind_keyword KInclude) ->
-  process_include jsc_len enum_len files banned (upd_sc s x1) l = CErr (include_error (upd_sc s x1) l k) ->
+  flush_cur (upd_sc s x1) = COk s0 ->
+  process_include jsc_len enum_len files banned s0 l = CErr (include_error s0 l k) ->
   scan_project jsc_len enum_len files banned (S f) s = CErr (include_error s l k).
 Proof. exact include_rejection_stops_scan. Qed.
 Print Assumptions include_rejection_ends_scan.
